@@ -148,7 +148,12 @@ Fixpoint int_digits (s : str) (acc : Z) (after_digit : bool) : option Z :=
       else None
   end.
 
+(* sys.int_info.default_max_str_digits: more than 4300 digit characters => ValueError *)
+Definition count_digits (s : str) : nat := List.length (filter is_digit s).
+Definition max_str_digits : nat := 4300.
+
 Definition py_int (s : str) : option Z :=
+  if Nat.ltb max_str_digits (count_digits s) then None else
   match strip c_space s with
   | [] => None
   | c :: r =>
@@ -197,15 +202,50 @@ Definition urlsplit_radio (uri : str) : option (str * str * str) :=
   Some (netloc, path, match qo with Some q => q | None => [] end).
 
 (* parse_qs(query)[key][0] when key is present: first field name=value (non-empty value) whose name,
-   after '+' -> ' ', is key.  Percent escapes are outside the modelled domain. *)
+   after '+' -> ' ', is key.  then percent-decoded. *)
 Definition plus_to_space (s : str) : str := map (fun c => if Ascii.eqb c c_plus then c_space else c) s.
+(* urllib.parse.unquote for escapes that decode to ASCII: '%' + two hex digits => that character, any other '%'
+   stays.  (Escapes >= %80 decode through UTF-8 and are outside the modelled domain, see in_scope.) *)
+Fixpoint unquote (s : str) : str :=
+  match s with
+  | [] => []
+  | c :: t =>
+      if Ascii.eqb c c_pct then
+        match t with
+        | a :: b :: r =>
+            match hexval a, hexval b with
+            | Some x, Some y => chr (16 * x + y) :: unquote r
+            | _, _ => c :: unquote t
+            end
+        | _ => c :: unquote t
+        end
+      else c :: unquote t
+  end.
+
+(* every escape decodes to a printable ASCII character *)
+Fixpoint pct_ok (s : str) : bool :=
+  match s with
+  | [] => true
+  | c :: t =>
+      if Ascii.eqb c c_pct then
+        match t with
+        | a :: b :: r =>
+            match hexval a, hexval b with
+            | Some x, Some y => (32 <=? 16 * x + y) && (16 * x + y <=? 126) && pct_ok r
+            | _, _ => pct_ok t
+            end
+        | _ => pct_ok t
+        end
+      else pct_ok t
+  end.
+
 Fixpoint qs_find (key : str) (fields : list str) : option str :=
   match fields with
   | [] => None
   | f :: r =>
       match break_at c_eq f with
       | (name, Some (v :: vs)) =>
-          if str_eqb (plus_to_space name) key then Some (plus_to_space (v :: vs)) else qs_find key r
+          if str_eqb (unquote (plus_to_space name)) key then Some (unquote (plus_to_space (v :: vs))) else qs_find key r
       | _ => qs_find key r
       end
   end.
@@ -264,7 +304,7 @@ Definition in_scope (uri : str) : bool :=
   (if startswith radio_prefix uri then
      let '(netloc, r1) := span not_delim (skipn 8 uri) in
      negb (has c_lbr netloc && has c_rbr netloc) &&
-     negb (has c_pct (match snd (break_at c_qmark (fst (break_at c_hash r1))) with Some q => q | None => [] end))
+     pct_ok (match snd (break_at c_qmark (fst (break_at c_hash r1))) with Some q => q | None => [] end)
    else true).
 
 (* ---------------------------------------------------------------- scan_interface formatting *)
@@ -445,3 +485,71 @@ Definition address_from_env (uri : str) : envres :=
       | _ => EnvAddr DEFAULT_ADDR
       end
   end.
+
+(* ---------------------------------------------------------------- the other drivers' URI parsers *)
+(* UsbDriver.connect: '^usb://([0-9]+)$', CfUsb(devid=int(group 1)) *)
+Inductive ures := UWrong | URaise | UOk (devid : Z).
+Definition usb_parse (uri : str) : ures :=
+  if claims DrvUsb uri then
+    let ds := skipn 6 uri in
+    if Nat.ltb max_str_digits (List.length ds) then URaise else UOk (horner 10 (map digit_val ds) 0)
+  else UWrong.
+
+(* SerialDriver.connect: '^serial://' claims, '^serial://([-a-zA-Z0-9/.]+)$' is a valid device name *)
+Definition c_dot : ascii := "."%char.
+Definition c_colon : ascii := ":"%char.
+Definition c_at : ascii := "@"%char.
+Definition is_alnum (c : ascii) : bool :=
+  let k := code c in
+  ((48 <=? k) && (k <=? 57)) || ((65 <=? k) && (k <=? 90)) || ((97 <=? k) && (k <=? 122)).
+Definition serial_char (c : ascii) : bool :=
+  is_alnum c || Ascii.eqb c c_minus || Ascii.eqb c c_slash || Ascii.eqb c c_dot.
+Inductive sres := SWrong | SInvalid | SName (name : str).
+Definition serial_parse (uri : str) : sres :=
+  if startswith (scheme_prefix DrvSerial) uri then
+    let r := skipn 9 uri in
+    if negb (is_nil r) && forallb serial_char r then SName r else SInvalid
+  else SWrong.
+
+(* TcpDriver / UdpDriver: urlparse(uri).hostname / .port  (tcp: of uri.split(' ')[0]) *)
+Definition lower_c (c : ascii) : ascii :=
+  if (65 <=? code c) && (code c <=? 90) then chr (code c + 32) else c.
+(* s.rpartition(c)[2] *)
+Fixpoint after_last (c : ascii) (s : str) : str :=
+  match s with
+  | [] => []
+  | x :: r => if has c r then after_last c r else if Ascii.eqb x c then r else s
+  end.
+Inductive nres := NWrong | NRaise | NOk (host : option str) (port : option Z).
+Definition port_of (p : option str) : option (option Z) :=      (* None = ValueError *)
+  match p with
+  | None => Some None
+  | Some [] => Some None
+  | Some ds =>
+      if forallb is_digit ds && negb (Nat.ltb max_str_digits (List.length ds)) then
+        let v := horner 10 (map digit_val ds) 0 in
+        if v <=? 65535 then Some (Some v) else None
+      else None
+  end.
+Definition host_of (h : str) : option str :=
+  match h with
+  | [] => None
+  | _ => let '(a, z) := break_at c_pct h in
+         Some (map lower_c a ++ match z with Some zone => c_pct :: zone | None => [] end)
+  end.
+Definition net_parse (d : driver) (uri : str) : nres :=
+  if negb (startswith (scheme_prefix d) uri) then NWrong else
+  let u := match d with DrvTcp => fst (break_at c_space uri) | _ => uri end in
+  let '(netloc, _) := span not_delim (skipn 6 u) in
+  if xorb (has c_lbr netloc) (has c_rbr netloc) then NRaise else
+  let hi := after_last c_at netloc in
+  let '(h, p) := break_at c_colon hi in
+  match port_of p with
+  | None => NRaise
+  | Some port => NOk (host_of h) port
+  end.
+Definition net_in_scope (uri : str) : bool :=
+  forallb printable uri &&
+  (let '(netloc, _) := span not_delim (skipn 6 (fst (break_at c_space uri))) in
+   let '(netloc2, _) := span not_delim (skipn 6 uri) in
+   negb (has c_lbr netloc && has c_rbr netloc) && negb (has c_lbr netloc2 && has c_rbr netloc2)).
